@@ -238,18 +238,28 @@ the input lines (all reproduced on the real helper). -/
 section CommandLayer
 open Pm.RfCmd
 
-/-- **Every piece of input, any bytes, in any state** (`w` = its first word): the helper is back at its prompt, or
+/-- **Every piece of input, any bytes, in any state whose stored time-out fits an `int`** (`TimeoutOK`: every reachable
+    state, `C19_timeout_invariant`; `w` = the first word): the helper is back at its prompt, or
     * it ended with status 0 and the first word is `quit`; or
     * it ended with status 1 (`err_exit`) and the line is a `setplugs` (a plug name that does not parse as a hostlist
-      expression again), a `setpath` (a plug the list knows and the map does not), or a `stat`/`on`/`off` while the
-      stored time-out overflows; or
+      expression again) or a `setpath` (a plug the list knows and the map does not); or
     * (model limit) a `setplugs`/`setpath`/`stat`/`on`/`off` with a 20-digit number in a range; or
     * it is a `stat`/`on`/`off`, the helper is stuck (abort, hang, or outside the model), and the state is not `Safe`:
       the plug table has an undefined parent or a cycle, or some plug has no status path.
     No other line ends the helper: in particular not an unknown command, a wrong number of arguments, an empty or
-    over-long line, a malformed or oversized range, a bad host index, an unknown plug. -/
-theorem C19_bad_input (s : State) (buf : List Char) : StepClass s (firstWord buf) (step s buf).ctl :=
-  step_class s buf
+    over-long line, a malformed or oversized range, a bad host index, an unknown plug, a `settimeout` of any value
+    (`err_exit "cmd_timeout overflow"` is unreachable since repair 7f04ec7: `C19_bad_input_timeout_f39_fixed`). -/
+theorem C19_bad_input (s : State) (buf : List Char) (ht : TimeoutOK s) : StepClass s (firstWord buf) (step s buf).ctl :=
+  step_class s buf ht
+
+/-- the stored time-out fits an `int` at start (60) and after every piece of input, any bytes: `settimeout` stores a
+    value only when it is a positive decimal `int` -/
+theorem C19_timeout_invariant (hostArgs failArgs : List Name) (now : Nat) (s0 : State)
+    (h0 : init hostArgs failArgs now = some s0) (hn : (now : Int) ≤ LONG_MAX - INT_MAX) (bufs : List (List Char)) :
+    TimeoutOK (session s0 bufs).1 ∧ ∀ s buf, TimeoutOK s → TimeoutOK (step s buf).st :=
+  ⟨reachable_TimeoutOK hostArgs failArgs now s0 h0 hn bufs, step_TimeoutOK⟩
+
+example : TimeoutOK exState := exState_TimeoutOK
 
 /-- `quit` (as first word, whatever follows) ends the helper with status 0 and prints nothing -/
 theorem C19_bad_input_quit (s : State) (buf : List Char) (h : firstWord buf = some (lit "quit")) :
@@ -257,25 +267,25 @@ theorem C19_bad_input_quit (s : State) (buf : List Char) (h : firstWord buf = so
 
 /-- Full statement wanted: "`step` returns `cont` unless the line is `quit`, for every line in every reachable state" —
     false (counterexamples below).  Proved: from a `Safe` state (table handed to the machine well-formed: parents defined,
-    no cycle; every plug has a status path; stored time-out not overflowing) with plug list and plug map in step (`Link`:
+    no cycle; every plug has a status path) with plug list and plug map in step (`Link`:
     every state reached through legal plug names, `C19_reachable`), a line — ANY bytes, `setplugs` and `setpath`
     included — that defines only legal plug names and has no 20-digit number in a range comes back to the prompt, or is
     `quit`.  Extra hypotheses and the inputs they exclude: `Safe s` excludes states reached through `setplugs` with an
-    undefined or cyclic parent, `setstatpath` without argument, `settimeout` with a huge value (each a counterexample
-    below); `LegalSetplugs` excludes plug names with a bracket after the range (`P[1]x[`, `P[1]x[3]`: counterexamples
+    undefined or cyclic parent and `setstatpath` without argument (each a counterexample below); `TimeoutOK` excludes
+    nothing reachable (`C19_timeout_invariant`); `LegalSetplugs` excludes plug names with a bracket after the range (`P[1]x[`, `P[1]x[3]`: counterexamples
     below); `≠ bignum` is the limit of the hostlist mirror (`strtoul` saturates at 2^64 - 1; the real helper reports such
     plugs unknown and goes on). -/
-theorem C19_bad_input_partial (s : State) (buf : List Char) (hs : Safe s) (hl : Link s)
+theorem C19_bad_input_partial (s : State) (buf : List Char) (hs : Safe s) (ht : TimeoutOK s) (hl : Link s)
     (hleg : LegalSetplugs (argvCreate (cstr buf))) (hb : (step s buf).ctl ≠ bignum) :
     (step s buf).ctl = .cont ∨ ((step s buf).ctl = .exit 0 ∧ firstWord buf = some (lit "quit")) :=
-  step_cont s buf hs hl hleg hb
+  step_cont s buf hs ht hl hleg hb
 
 /-- the same for lines that are neither `setplugs` nor `setpath`, without any assumption on plug names or on list and map -/
-theorem C19_bad_input_other_lines_partial (s : State) (buf : List Char) (hs : Safe s)
+theorem C19_bad_input_other_lines_partial (s : State) (buf : List Char) (hs : Safe s) (ht : TimeoutOK s)
     (h1 : firstWord buf ≠ some (lit "setplugs")) (h2 : firstWord buf ≠ some (lit "setpath"))
     (hb : (step s buf).ctl ≠ bignum) :
     (step s buf).ctl = .cont ∨ ((step s buf).ctl = .exit 0 ∧ firstWord buf = some (lit "quit")) :=
-  step_safe s buf hs h1 h2 hb
+  step_safe s buf hs ht h1 h2 hb
 
 example : Link exState := exState_Link
 example : LegalSetplugs (argvCreate (cstr (lit "setplugs Slot[1-3],x[7-9]b 3,0,1,1,1,9 Node5\n"))) :=
@@ -284,11 +294,11 @@ example : Safe exState := exState_safe
 example : (step exState (lit "stat Node[0-9],zz P[3-1\n")).ctl = .cont := by decide +kernel
 example : (step exState (lit "\x00quit\n")).ctl = .cont ∧ (step exState (lit " \t quit now\n")).ctl = .exit 0 := by decide +kernel
 
-/-- a `Safe` state stays `Safe` under every line that is not `setplugs`, `setpath`, `setstatpath` or `settimeout`: in
-    particular under every `stat` / `on` / `off`, unknown command, malformed target expression, empty or over-long line -/
+/-- a `Safe` state stays `Safe` under every line that is not `setplugs`, `setpath` or `setstatpath`: in particular under
+    every `stat` / `on` / `off`, `settimeout`, unknown command, malformed target expression, empty or over-long line -/
 theorem C19_safe_kept (s : State) (buf : List Char) (hs : Safe s)
     (h : firstWord buf ≠ some (lit "setplugs") ∧ firstWord buf ≠ some (lit "setpath") ∧
-      firstWord buf ≠ some (lit "setstatpath") ∧ firstWord buf ≠ some (lit "settimeout")) : Safe (step s buf).st :=
+      firstWord buf ≠ some (lit "setstatpath")) : Safe (step s buf).st :=
   step_Safe s buf hs h
 
 /-- over-long lines: `fgets(buf, 256, stdin)` cuts the input into pieces of at most 255 bytes, each handled as a line of
@@ -303,13 +313,23 @@ example : (fgetsSplit 1000 (List.replicate 300 'x' ++ lit "\nstat\n")).map List.
 theorem C19_bad_input_push_counterexample : runLines "h[0-3]" ["setplugs P[1]x[ 0"] = some ([[]], .exit 1) :=
   push_fail_counterexample
 
-/-- `settimeout 99999999999999999999` is reported invalid and stored all the same (so is the valid
-    `9223372036854775807`); the next `stat` of a known plug exits with status 1 (`cmd_timeout overflow`) -/
-theorem C19_bad_input_timeout_counterexample :
+/-- F39 (repaired in 7f04ec7; before, these very lines ended the helper with `err_exit "cmd_timeout overflow"`):
+    `settimeout 99999999999999999999` and `settimeout 9223372036854775807` are reported invalid and the old value stays;
+    the next `stat` of a known plug is answered.  The largest value accepted is `INT_MAX` -/
+theorem C19_bad_input_timeout_f39_fixed :
     runLines "h[0-3]" ["setstatpath s", "settimeout 99999999999999999999", "stat zz", "stat h0"] =
-      some ([[], [lit "invalid timeout specified"], [lit "unknown plug specified: zz"], []], .exit 1) ∧
-    runLines "h[0-3]" ["setstatpath s", "settimeout 9223372036854775807", "stat h0"] = some ([[], [], []], .exit 1) :=
-  timeout_counterexample
+      some ([[], [lit "invalid timeout specified"], [lit "unknown plug specified: zz"], [lit "h0: off"]], .cont) ∧
+    runLines "h[0-3]" ["setstatpath s", "settimeout 9223372036854775807", "stat h0", "settimeout 2147483648",
+        "settimeout 2147483647", "stat h1"] =
+      some ([[], [lit "invalid timeout specified"], [lit "h0: off"], [lit "invalid timeout specified"], [],
+             [lit "h1: off"]], .cont) := timeout_f39_fixed
+
+/-- `settimeout`: which arguments are refused (message, old value kept) and which are stored -/
+theorem C19_diag_settimeout (s : State) (a : Name) (rest : List Name) :
+    settimeout s (a :: rest) =
+      if (strtol a).2.2 = true ∨ (strtol a).2.1 ≠ a.length ∨ (strtol a).1 ≤ 0 ∨ (strtol a).1 > INT_MAX
+      then ok s [lit "invalid timeout specified"] else ok { s with cmdTimeout := (strtol a).1 } :=
+  settimeout_spec s a rest
 
 /-- an undefined parent is accepted; `stat` of the child aborts (`assert(root_plugname)`); defining the parent later
     repairs the table -/
@@ -483,13 +503,15 @@ example : ∀ n ∈ expand (hostsOf [lit "h[0-3]"]), LegalName n := by decide +k
 /-! ### target resolution, composed with the machine theorems -/
 
 /-- **`C19_targets_resolved`.**  A `stat` / `on` / `off` line with the hostlist expression `a` (names `expand hl`), from a
-    `Safe` state with list and map in step (`Linked`: every reachable state, `C19_reachable`) and the command's path set:
+    `Safe` state (time-out within `int`: every reachable state) with list and map in step (`Linked`: every reachable state,
+    `C19_reachable`) and the command's path set:
     the helper comes back to its prompt; it prints one `unknown plug specified: n` line per unknown name, in expression
     order, then the lines `M` of the machine, which was handed exactly the known names, in expression order, duplicates
     kept (`T`); `M` has exactly one line per element of `T` (`C19_one_line_per_target` through the seam), none of them an
     "unknown plug" line, and `M` is, up to order, what the documented rules prescribe (`C19_refines`) -/
 theorem C19_targets_resolved (s : State) (cmd : Redfish.Cmd) (a : Name) (rest : List Name) (hl : Hostlist)
-    (hs : Safe s) (hlk : Linked s) (hp : PathsFor s cmd) (hb : hlArgOK a = true) (hc : hlCreate a = some hl) :
+    (hs : Safe s) (ht : TimeoutOK s) (hlk : Linked s) (hp : PathsFor s cmd) (hb : hlArgOK a = true)
+    (hc : hlCreate a = some hl) :
     let names := expand hl
     let T := names.filterMap (mIndex s.plugMap)
     let M := (Redfish.runCmd (mCfg s) (mSt s) cmd T).1
@@ -499,7 +521,7 @@ theorem C19_targets_resolved (s : State) (cmd : Redfish.Cmd) (a : Name) (rest : 
     (M.map Redfish.linePlug).Perm T ∧ (∀ l ∈ M, Redfish.isUnk l = false) ∧
     M.Perm (Redfish.specRun (mCfg s) (mSt s) cmd T).1 := by
   intro names T M
-  obtain ⟨h1, h2, h3, h4⟩ := powerCmd_resolved s cmd a rest hl hs hlk hp hb hc
+  obtain ⟨h1, h2, h3, h4⟩ := powerCmd_resolved s cmd a rest hl hs ht hlk hp hb hc
   exact ⟨h1, h2, h3, h4, powerCmd_rules s cmd names hs⟩
 
 /-- the resolution alone, in any state with list and map in step (no time-out overflow): lines and targets -/
@@ -509,9 +531,9 @@ theorem C19_targets_resolved_loop (s : State) (cmd : Redfish.Cmd) (hl : Linked s
   resolveLoop_spec s cmd hl hp names
 
 /-- non-vacuity: the hypotheses hold of `exState` and `on Node[2-5],zz,Node2` … -/
-example : Safe exState ∧ Linked exState ∧ PathsFor exState .on ∧ hlArgOK (lit "Node[2-5],zz,Node2") = true ∧
+example : Safe exState ∧ TimeoutOK exState ∧ Linked exState ∧ PathsFor exState .on ∧ hlArgOK (lit "Node[2-5],zz,Node2") = true ∧
     (hlCreate (lit "Node[2-5],zz,Node2")).isSome = true :=
-  ⟨exState_safe, exState_Link.linked, PathsFor_of_default _ _ (by decide +kernel), by decide +kernel, by decide +kernel⟩
+  ⟨exState_safe, exState_TimeoutOK, exState_Link.linked, PathsFor_of_default _ _ (by decide +kernel), by decide +kernel, by decide +kernel⟩
 /-- … and this is the answer (both blades are off: the nodes are refused; `zz` is unknown; `Node2` is answered twice) -/
 example : (powerCmd exState .on [lit "Node[2-5],zz,Node2"]).out =
     [lit "unknown plug specified: zz", lit "Node2: cannot perform on, dependency off (host=h0 plug=Blade0)",
